@@ -99,21 +99,36 @@ Definition out_match (m : out) (i : iout) : bool :=
   | _, _ => false
   end.
 
+(** A request for ZERO addresses asks for nothing, so the property is silent on
+    how it ends: the code at hand registers a commit hook that indexes the last
+    of zero addresses and crashes (the model's [EPanic], see Mgr.next_addresses);
+    an implementation that returns the empty list instead is as good.  Either
+    answer matches; the state is the same in both (nothing is issued, the account
+    is in the cache).  No theorem of Properties/C03.v speaks about n = 0
+    ([C03_next_addresses] is about answers [OutAddrs], which the model never
+    gives there). *)
+Definition zero_request (o : op) : bool :=
+  match o with ONext _ _ _ n => n =? 0 | _ => false end.
+
+Definition op_out_match (o : op) (m : out) (i : iout) : bool :=
+  out_match m i ||
+  (zero_request o && match m, i with OutErr EPanic, IAddrs [] => true | _, _ => false end).
+
 (** a case: seed id, initial passphrase id, operations with the
     implementation's answers *)
 Record acase := mkCase { c_seed : N; c_pass : N; c_ops : list (op * iout) }.
 
 (** index of the first operation whose answers differ *)
-Fixpoint first_diff (i : nat) (ms : list out) (is : list iout) : option nat :=
-  match ms, is with
-  | [], [] => None
-  | m :: ms', x :: is' => if out_match m x then first_diff (S i) ms' is' else Some i
-  | _, _ => Some i
+Fixpoint first_diff (i : nat) (os : list op) (ms : list out) (is : list iout) : option nat :=
+  match os, ms, is with
+  | [], [], [] => None
+  | o :: os', m :: ms', x :: is' => if op_out_match o m x then first_diff (S i) os' ms' is' else Some i
+  | _, _, _ => Some i
   end.
 
 Definition case_diff (f : facts) (c : acase) : option nat :=
   let '(_, outs) := run f (init (c_seed c) (c_pass c)) (map fst (c_ops c)) in
-  first_diff 0 outs (map snd (c_ops c)).
+  first_diff 0 (map fst (c_ops c)) outs (map snd (c_ops c)).
 
 Definition case_ok (f : facts) (c : acase) : bool :=
   match case_diff f c with None => true | Some _ => false end.
